@@ -288,50 +288,73 @@ def noLabelCond (r : PRow) (ct : Str) : Bool :=
     && !(match val2 r "bind" "calculate" with | some v => !v.isEmpty | none => false)
     && !(ct = "group".toList && val2 r "control" "appearance" = some "field-list".toList)
 
-/-- one iteration of `for row_number, row in enumerate(survey_sheet.data, start=2)` -/
-def rowStep (n : Nat) (r0 : PRow) (st : St) : Except Stop St :=
+/-- `aliases.yes_no.get(row.pop("disabled"))` is truthy -/
+def disabledYes (r : PRow) : Bool := match val1 r "disabled" with | some v => Rows.yesNoTrue v | none => false
+/-- the row after `row.pop("disabled")` -/
+def body (r : PRow) : PRow := r.filter fun c => c.1.head? ≠ some "disabled".toList
+/-- `row.get("type")` after `dealias_types` -/
+def rowType (r : PRow) : Option Str := (val1 (body r) "type").map typeAlias
+
+/-- what one row appends: warnings, the or_other flag, the kept (row number, type) -/
+structure RowOut where
+  ws : List W := []
+  orOther : Bool := false
+  kept : List (Nat × Str) := []
+deriving Repr, Inhabited
+
+/-- a row with a type (after the `disabled` / empty / comment-row handling): xls2json.py 583-1374, warning sites -/
+def typedOut (n : Nat) (r : PRow) (t : Str) (pkeys : List Str) : Except Stop RowOut :=
+  if t = "audit".toList then .ok { kept := [(n, t)] }
+  else
+  let dep := if deprecatedTypes.contains t then [W.deprecated n t] else []
+  if settingsTypes.contains t then .ok { ws := dep }
+  else if (Rows.matchControl "end" false t).isSome then .ok { ws := dep }
+  else
+  match Rows.matchControl "begin" true t with
+  | some ct =>
+    if ct = "loop".toList then .error (.unsupported "loop")
+    else if keyIn r "default" then .error (.unsupported "default on a begin row (lexer)")
+    else .ok { ws := dep ++ (if noLabelCond r ct then [W.noLabel n ct] else []), kept := [(n, t)] }
+  | none =>
+  match Rows.matchSelect t with
+  | some (sel, _, other) =>
+    .ok { ws := dep ++ (if sel = "select one external".toList && !keyIn r "choice_filter" then [W.extNoFilter n] else []),
+          orOther := other, kept := [(n, t)] }
+  | none =>
+    .ok { ws := dep ++ (if t = "photo".toList && !pkeys.contains "max-pixels".toList then [W.noMaxPixels n] else []),
+          kept := [(n, t)] }
+
+/-- one iteration of `for row_number, row in enumerate(survey_sheet.data, start=2)`: what it appends -/
+def rowOut (n : Nat) (r0 : PRow) : Except Stop RowOut :=
   -- "disabled" (552-560)
   if groupedOnly r0 "disabled" then .error (.unsupported "disabled::x") else
-  let st1 := if keyIn r0 "disabled" then { st with warnings := st.warnings ++ [W.disabled n] } else st
-  let r := r0.filter fun c => c.1.head? ≠ some "disabled".toList
-  if (match val1 r0 "disabled" with | some v => Rows.yesNoTrue v | none => false) then .ok st1
-  else if r.isEmpty then .ok st1
-  else if groupedOnly r "type" then .error (.unsupported "type::x") else
-  match (val1 r "type").map typeAlias with
+  let dis := if keyIn r0 "disabled" then [W.disabled n] else []
+  let r := body r0
+  if disabledYes r0 then .ok { ws := dis }
+  else if r.isEmpty then .ok { ws := dis }
+  else if groupedOnly r "type" then .error (.unsupported "type::x")
+  else
+  match rowType r0 with
   | none =>
-    if !(keyIn r "name" || keyIn r "label") then .ok { st1 with warnings := st1.warnings ++ [W.skipped n] }
+    if !(keyIn r "name" || keyIn r "label") then .ok { ws := dis ++ [W.skipped n] }
     else .error (.error n "Question with no type")
   | some [] =>
-    if !(keyIn r "name" || keyIn r "label") then .ok { st1 with warnings := st1.warnings ++ [W.skipped n] }
+    if !(keyIn r "name" || keyIn r "label") then .ok { ws := dis ++ [W.skipped n] }
     else .error (.error n "Question with no type")
-  | some t =>
+  | some (c :: cs) =>
     if groupedOnly r "parameters" then .error (.unsupported "parameters::x") else
     match paramKeys ((val1 r "parameters").getD []) with
     | none => .error (.error n "parameters")
     | some pkeys =>
-    if t = "audit".toList then .ok { st1 with kept := st1.kept ++ [(n, t)] }
-    else
-    let st2 := if deprecatedTypes.contains t then { st1 with warnings := st1.warnings ++ [W.deprecated n t] } else st1
-    if settingsTypes.contains t then .ok st2
-    else if (Rows.matchControl "end" false t).isSome then .ok st2
-    else
-    match Rows.matchControl "begin" true t with
-    | some ct =>
-      if ct = "loop".toList then .error (.unsupported "loop")
-      else if keyIn r "default" then .error (.unsupported "default on a begin row (lexer)")
-      else
-        let st3 := if noLabelCond r ct then { st2 with warnings := st2.warnings ++ [W.noLabel n ct] } else st2
-        .ok { st3 with kept := st3.kept ++ [(n, t)] }
-    | none =>
-    match Rows.matchSelect t with
-    | some (sel, _, other) =>
-      let st3 := if sel = "select one external".toList && !keyIn r "choice_filter"
-        then { st2 with warnings := st2.warnings ++ [W.extNoFilter n] } else st2
-      .ok { st3 with orOther := st3.orOther || other, kept := st3.kept ++ [(n, t)] }
-    | none =>
-      let st3 := if t = "photo".toList && !pkeys.contains "max-pixels".toList
-        then { st2 with warnings := st2.warnings ++ [W.noMaxPixels n] } else st2
-      .ok { st3 with kept := st3.kept ++ [(n, t)] }
+      match typedOut n r (c :: cs) pkeys with
+      | .ok o => .ok { o with ws := dis ++ o.ws }
+      | .error e => .error e
+
+/-- the loop body on the threaded state: `warnings.append(…)`, `or_other_seen = True`, children appended -/
+def rowStep (n : Nat) (r0 : PRow) (st : St) : Except Stop St :=
+  match rowOut n r0 with
+  | .ok o => .ok { warnings := st.warnings ++ o.ws, orOther := st.orOther || o.orOther, kept := st.kept ++ o.kept }
+  | .error e => .error e
 
 def rowLoop : Nat → List PRow → St → Except Stop St
   | _, [], st => .ok st
@@ -535,15 +558,12 @@ def trShort (tbl : Aliases) (hs : List (List Str)) : Bool :=
 
 /-! row-level triggers, on a row after header processing -/
 
-def disabledYes (r : PRow) : Bool := match val1 r "disabled" with | some v => Rows.yesNoTrue v | none => false
-def body (r : PRow) : PRow := r.filter fun c => c.1.head? ≠ some "disabled".toList
 /-- the row takes part in the form: not switched off, not blank -/
 def active (r : PRow) : Bool := !disabledYes r && !(body r).isEmpty
-def rowType (r : PRow) : Option Str := (val1 (body r) "type").map typeAlias
 def typed (r : PRow) : Bool := match rowType r with | some (_ :: _) => true | _ => false
 
 def disabledTrig (r : PRow) : Bool := keyIn r "disabled"
-def skippedTrig (r : PRow) : Bool := active r && !typed r && !(keyIn r "name" || keyIn r "label")
+def skippedTrig (r : PRow) : Bool := active r && !typed r && !(keyIn (body r) "name" || keyIn (body r) "label")
 /-- the metadata types documented as deprecated (the model reads `DEPRECATED_DEVICE_ID_METADATA_FIELDS`;
     `C20.deprecated_pinned` states that the two agree) -/
 def documentedDeprecated : List Str := ["simserial".toList, "subscriberid".toList]
@@ -563,7 +583,7 @@ def plainQuestion (t : Str) : Bool :=
 def extNoFilterTrig (r : PRow) : Bool :=
   active r && typed r &&
   (match rowType r with | some t => plainQuestion t && isSelectExternal t | none => false)
-  && !keyIn r "choice_filter"
+  && !keyIn (body r) "choice_filter"
 def noMaxPixelsTrig (r : PRow) : Bool :=
   active r && typed r &&
   (match rowType r with
@@ -572,7 +592,7 @@ def noMaxPixelsTrig (r : PRow) : Bool :=
 
 /-- all row-level warnings due for row `n` -/
 def rowDue (n : Nat) (r : PRow) : List W :=
-  (if disabledTrig r then [W.disabled n] else []) ++
+  (if keyIn r "disabled" then [W.disabled n] else []) ++
   (if skippedTrig r then [W.skipped n] else []) ++
   (match rowType r with | some t => if deprecatedTrig r t then [W.deprecated n t] else [] | none => []) ++
   (match rowType r with
